@@ -1429,6 +1429,74 @@ def standard_tables(ctx):
     r.extra["either_way_entries"] = {t: s.get("either", []) for t, s in data["tables"].items() if s.get("either")}
 
 
+def missing_steps(ctx):
+    """Three steps of the standard whose presence is visible in the shape of the code:
+
+    C01.20  "If the next token is a U+000A LINE FEED character token, then ignore that token" after a pre / listing / textarea
+            start tag: *next token*.  html5lib arms a white-space handler that drops the newline; it has to be disarmed by every
+            other token, or an ignored token in between (`<pre></b>\\nx`) leaves it armed and the newline is dropped although it is
+            not the next token.
+    C01.21  fragment parsing: "set the parser's form element pointer to the nearest node to the context element that is a form
+            element": with the context element `form` the pointer is non-null, so a `<form>` start tag inside is ignored.
+    C01.22  adoption agency, step 2: "if the current node is an HTML element whose tag name is subject, and the current node is
+            not in the list of active formatting elements, then pop the current node off the stack of open elements and return"."""
+    r = ctx.r
+    repo = ctx.repo
+    r.rule("C01.20", "the newline-dropping handler armed by pre / listing / textarea is disarmed by every other token", floor=1)
+    r.rule("C01.21", "a fragment whose context element is form has a non-null form element pointer", floor=1)
+    r.rule("C01.22", "adoption agency step 2: the current node with the token's name that is not in the formatting list is simply popped", floor=1)
+    ib = repo.cls("html5parser.py", "InBodyPhase")
+    drop = [m for m in ib.methods.values() if any(isinstance(a, ast.Assign) and norm(a.targets[0]) == "self.processSpaceCharacters" and
+                                                    norm(a.value) != "self." + m.name for a in ast.walk(m.node)) and
+            any("startswith" in norm(c) for c in ast.walk(m.node) if isinstance(c, ast.Call)) and m.name.startswith("processSpaceCharacters")]
+    if len(drop) != 1:
+        r.idiom("C01.20", False, "drop-newline-is-next-token-only", ib.where, "the newline-dropping white-space handler was not identified")
+    else:
+        h = drop[0]
+        armers = [m.name for m in ib.methods.values() if any(isinstance(a, ast.Assign) and norm(a.targets[0]) == "self.processSpaceCharacters" and
+                                                              norm(a.value) == "self." + h.name for a in ast.walk(m.node))]
+        # token entry points of the phase other than white space: do they restore the default handler (or is the arming
+        # tied to a token count that the handler checks)?
+        entries = ["processStartTag", "processEndTag", "processCharacters", "processComment"]
+        restoring = []
+        for nm in entries:
+            m = ib.find_method(nm)
+            if m is not None and any(isinstance(a, ast.Assign) and norm(a.targets[0]) == "self.processSpaceCharacters" for a in ast.walk(m.node)):
+                restoring.append(nm)
+        counted = any("tokenCount" in norm(x) or "tokensSeen" in norm(x) or "lastToken" in norm(x) for x in ast.walk(h.node) if isinstance(x, (ast.Attribute, ast.Name)))
+        r.idiom("C01.20", counted or len(restoring) == len(entries), "drop-newline-is-next-token-only", h.where,
+                "how the newline-dropping handler is limited to the next token was not recognised",
+                wrong=[(bool(armers) and not counted and not restoring,
+                        "%s (armed by %s) stays armed until the next white-space token arrives, whatever tokens come in between: "
+                        "`<pre></b>\\nx` (an ignored end tag between the start tag and the newline) loses the newline, which is not the "
+                        "next token after <pre>; the handler only checks that the element is still empty" % (h.qual, ", ".join(sorted(armers))))],
+                detail={"armed_by": sorted(armers), "restoring_entry_points": restoring})
+    rs = repo.func("html5parser.py", "HTMLParser.reset")
+    sets_form = any(isinstance(a, ast.Assign) and norm(a.targets[0]).endswith("formPointer") for a in ast.walk(rs.node)) or \
+        any(isinstance(c, ast.Call) and "formPointer" in norm(c) for c in ast.walk(rs.node))
+    frag = any(isinstance(t, ast.If) and "innerHTMLMode" in norm(t.test) for t in ast.walk(rs.node))
+    r.idiom("C01.21", sets_form, "fragment-form-pointer", rs.where, "HTMLParser.reset: the fragment set-up was not recognised",
+            wrong=[(frag and not sets_form,
+                    "fragment set-up never sets the form element pointer: parseFragment('<form id=inner><input></form>x', container='form') "
+                    "creates a nested form element; with a form context element the standard has a non-null pointer, so the inner "
+                    "<form> start tag is ignored")])
+    ef = repo.func("html5parser.py", "InBodyPhase.endTagFormatting")
+    first_loop = next((st for st in ef.node.body if isinstance(st, ast.While)), None)
+    before = []
+    for st in ef.node.body:
+        if st is first_loop:
+            break
+        before.append(st)
+    shortcut = any(isinstance(st, ast.If) and "activeFormattingElements" in norm(st.test) and "openElements[-1]" in norm(st) + " ".join(norm(b) for b in before) and
+                   any(isinstance(x, ast.Return) for x in ast.walk(st)) and any("pop" in norm(c) for c in ast.walk(st) if isinstance(c, ast.Call))
+                   for st in before)
+    r.idiom("C01.22", shortcut, "aaa-current-node-shortcut", ef.where, "endTagFormatting: what precedes the outer loop was not recognised",
+            wrong=[(first_loop is not None and not any(isinstance(st, ast.If) for st in before),
+                    "the adoption agency starts its outer loop at once; the standard first pops a current node that has the token's name and is "
+                    "not in the list of active formatting elements: `<b><p><b><b><b></p></b>x` (the first b was evicted by the Noah's Ark "
+                    "clause) removes a list entry instead and leaves the outer b open")])
+
+
 def run(ctx):
     r = ctx.r
     r.explanation = (
@@ -1476,6 +1544,7 @@ def run(ctx):
     space_delegation(ctx)
     reprocess_condition(ctx)
     pop_until_html_element(ctx)
+    missing_steps(ctx)
     from . import modes
     modes.run(ctx, "C01.12")
     standard_tables(ctx)
@@ -1489,6 +1558,7 @@ def thorough(ctx):
 def mutants():
     from ..selftest import TextMutant as T
     return [
+        T("aaa-step2-dropped", "html5parser.py", "        currentNode = self.tree.openElements[-1]\n        if (currentNode.name == token[\"name\"] and\n                currentNode.namespace == self.tree.defaultNamespace and\n                currentNode not in self.tree.activeFormattingElements):\n            self.tree.openElements.pop()\n            return\n", "", "C01.22"),
         T("row-context-name-only", "html5parser.py", "        while (self.tree.openElements[-1].namespace != self.tree.defaultNamespace or\n               self.tree.openElements[-1].name not in (\"tr\", \"html\")):", "        while self.tree.openElements[-1].name not in (\"tr\", \"html\"):", "C01.19"),
         T("intable-table-reprocess-unless-fragment", "html5parser.py", "        ignoreEndTag = not self.tree.elementInScope(\"table\", variant=\"table\")\n        self.parser.phase.processEndTag(impliedTagToken(\"table\"))\n        if not ignoreEndTag:\n            return token",
           "        self.parser.phase.processEndTag(impliedTagToken(\"table\"))\n        if not self.parser.innerHTML:\n            return token", "C01.18"),
